@@ -381,8 +381,16 @@ var c01corpus = []string{
 	"svc+e/web!http:80:8080+adm:81:adm!- cls+hap:haproxy-ingress.github.io/controller ing~e/i1@1!-,hap!-!_>/App:ImplementationSpecific:api:80!-!- sync ing+e/i5@2!haproxy,-!-!-!-!web:80",
 	// 28a4cee loser of the duplicated default backend
 	"svc+d/api!http:80:8080+adm:81:adm!- svc+e/web!http:80:8080+adm:81:adm!- ing~d/i3@2!haproxy,-!-!-!-!api:80 ing+e/i5@3!haproxy,-!-!-!-!web:80 sync ing~d/i3@2!other,-!-!-!-!-",
-	// finding 1: a skipped (redeclared) path that becomes the owner lands on a surviving backend
+	// 0a95d71 a skipped declaration that becomes the owner lands on a surviving backend (three flavours:
+	// path redeclared by another ingress, one ingress declaring a path twice, loser of the default backend)
 	"svc+d/app!http:80:8080!- ep~d/app!10.0.1.1:r:app-1 svc+d/api!http:80:8080!- ep~d/api!10.0.2.1:r:api-1 ing+d/i1@1!haproxy,-!-!a.local>/a:Prefix:app:80!-!- ing+d/i2@2!haproxy,-!balance-algorithm=leastconn!a.local>/a:Prefix:api:80!-!- ing+d/i3@3!haproxy,-!-!b.local>/:Prefix:api:80!-!- sync ing-d/i1 sync",
+	"svc+d/app!http:80:8080+adm:81:adm!- svc+d/api!http:80:8080+adm:81:adm!- ing+d/i1@1!haproxy,-!balance-algorithm=first!a.local>/b:Prefix:app:80+/b:Prefix:api:80!-!- ing+d/i3@3!haproxy,-!-!b.local>/:Prefix:api:80!-!- sync svc-d/app",
+	"svc+d/app!http:80:8080+adm:81:adm!- svc+d/api!http:80:8080+adm:81:adm!- ing+d/i1@1!haproxy,-!-!-!-!app:http ing+d/i2@2!haproxy,-!balance-algorithm=leastconn!-!-!api:http ing+d/i3@3!haproxy,-!-!b.local>/:Prefix:api:http!-!- sync ing~d/i1@1!other,-!-!-!-!-",
+	// finding 3: the backend link of a skipped declaration goes stale when the service re-maps the port
+	"svc+d/app!http:80:8080!- ep~d/app!10.0.1.1:r:app-1 svc+d/api!http:80:8080!- ep~d/api!10.0.2.1:r:api-1 ing+d/i1@1!haproxy,-!-!a.local>/a:Prefix:app:80!-!- ing+d/i2@2!haproxy,-!balance-algorithm=leastconn!a.local>/a:Prefix:api:80!-!- sync svc+d/api!web:80:8081!- sync ing+d/i3@3!haproxy,-!-!b.local>/:Prefix:api:80!-!- sync ing-d/i1 sync",
+	// finding 2 (tcp services): the loser of a tcp port is not tracked; the default backend of an added tcp ingress is not pre-tracked
+	"svc+d/app!http:80:8080!- ep~d/app!10.0.1.1:r:app-1 svc+d/api!http:80:8080!- ep~d/api!10.0.2.1:r:api-1 ing+d/i1@1!haproxy,-!tcp-service-port=7000!_>/:Prefix:app:80!-!- ing+d/i2@2!haproxy,-!tcp-service-port=7000!_>/:Prefix:api:80!-!- sync ing-d/i1 sync",
+	"svc+d/app!http:80:8080!- ep~d/app!10.0.1.1:r:app-1 svc+d/api!http:80:8080!- ep~d/api!10.0.2.1:r:api-1 ing+d/i2@2!haproxy,-!tcp-service-port=7000!-!-!api:80 sync ing+d/i1@1!haproxy,-!tcp-service-port=7000!-!-!app:80 sync",
 }
 
 func runC01(c *ctx) {
@@ -397,10 +405,19 @@ func runC01(c *ctx) {
 	shrunk := map[string]bool{}
 	for i := 0; i < n; i++ {
 		var ops []string
-		if i%3 == 0 {
+		switch i % 4 {
+		case 3:
+			if i%16 == 15 {
+				ops = newC01Gen(r.Fork(), true).tcpScenario()
+			} else {
+				ops = newC01Gen(r.Fork(), false).scenario()
+			}
+		case 0:
 			ops = world.NewGen(r.Fork(), world.DefaultGen()).History()
-		} else {
-			ops = newC01Gen(r.Fork(), i%3 == 2).history()
+		case 1:
+			ops = newC01Gen(r.Fork(), false).history()
+		case 2:
+			ops = newC01Gen(r.Fork(), true).history()
 		}
 		res := c01case(c, ops)
 		if strings.HasPrefix(res.verdict, "diff:") && len(shrunk) < 12 {
